@@ -61,6 +61,13 @@ terms of the MIT license. A copy of the license can be found in the file
 #endif
 #endif
 
+#if defined(MI_VERIF_HOOKS)
+// verification hook (off by default): `MI_VERIF_HOOKS` names a header that may re-define `mi_atomic(name)`
+#define MI_VERIF_HOOKS_PART 1
+#include MI_VERIF_HOOKS
+#undef MI_VERIF_HOOKS_PART
+#endif
+
 // Various defines for all used memory orders in mimalloc
 #define mi_atomic_cas_weak(p,expected,desired,mem_success,mem_fail)  \
   mi_atomic(compare_exchange_weak_explicit)(p,expected,desired,mem_success,mem_fail)
@@ -550,5 +557,11 @@ static inline void mi_lock_done(mi_lock_t* lock) {
 
 #endif
 
+#if defined(MI_VERIF_HOOKS)
+// verification hook (off by default): may wrap `mi_atomic_yield` and the `mi_lock_` functions
+#define MI_VERIF_HOOKS_PART 2
+#include MI_VERIF_HOOKS
+#undef MI_VERIF_HOOKS_PART
+#endif
 
 #endif // __MIMALLOC_ATOMIC_H
